@@ -272,6 +272,13 @@ def run(ctx, R, tier):
     if R.check(ld is not None, 'B.C15.inherit', 'anchor:listener_distance', 'not found'):
         z = calls_to(ld, 'std::option::Option::<T>::zip', suffix=False)
         okz = len(z) == 1 and 'spatial_track_info' in describe(ld, z[0][1]['args'][0]) and 'listener_info(' in describe(ld, z[0][1]['args'][1])
+        if not okz:
+            # written out with `?`: the distance between a position taken from listener_info() and the one taken from the
+            # (inherited) spatial_track_info
+            for bb, t in ld.calls():
+                if (callee_path(t) or '') == 'glam::Vec3::distance':
+                    ds = [describe(ld, a, depth=8, at=bb) for a in t['args']]
+                    okz = any('listener_info(' in x for x in ds) and any('spatial_track_info' in x for x in ds)
         R.check(okz, 'B.C15.inherit', 'listener_distance', 'listener_distance does not combine the (inherited) spatial info with listener_info()',
                 detail='spatial_track_info.zip(self.listener_info())')
 
